@@ -248,18 +248,33 @@ func (c *cmp) eq(a, b reflect.Value, path string) bool {
 }
 
 // findKey locates the entry of m whose key equals k under Equal semantics.
-func (c *cmp) findKey(m reflect.Value, k reflect.Value) (reflect.Value, bool) {
+//
+// Keys that Go itself cannot find again (NaN, NaN-holding composites) may
+// occur several times in one map. For those the entry whose value also equals
+// want is preferred, so that {NaN:1, NaN:2} equals {NaN:2, NaN:1}.
+func (c *cmp) findKey(m reflect.Value, k reflect.Value, want reflect.Value) (reflect.Value, bool) {
 	if v := m.MapIndex(k); v.IsValid() {
 		return v, true
 	}
+	var first reflect.Value
+	found := false
 	it := m.MapRange()
 	for it.Next() {
-		sub := &cmp{seen: c.seen}
-		if sub.eq(k, it.Key(), "") {
-			return it.Value(), true
+		sub := &cmp{seen: map[visit]bool{}}
+		if !sub.eq(k, it.Key(), "") {
+			continue
+		}
+		if !found {
+			first, found = it.Value(), true
+		}
+		if want.IsValid() {
+			vs := &cmp{seen: map[visit]bool{}}
+			if vs.eq(want, it.Value(), "") {
+				return it.Value(), true
+			}
 		}
 	}
-	return reflect.Value{}, false
+	return first, found
 }
 
 // mapSub: every entry of a is present in b. In prefix mode at most one value
@@ -268,7 +283,7 @@ func (c *cmp) mapSub(a, b reflect.Value, path string, allowOnePartial bool) bool
 	partialUsed := false
 	it := a.MapRange()
 	for it.Next() {
-		bv, ok := c.findKey(b, it.Key())
+		bv, ok := c.findKey(b, it.Key(), it.Value())
 		p := fmt.Sprintf("%s{%v}", path, keyText(it.Key()))
 		if !ok {
 			return c.fail(p, "key not present in the other map")
@@ -280,6 +295,13 @@ func (c *cmp) mapSub(a, b reflect.Value, path string, allowOnePartial bool) bool
 		if allowOnePartial && !partialUsed {
 			pc := &cmp{seen: c.seen, prefix: true}
 			if pc.eq(it.Value(), bv, p) {
+				// A map entry exists only once its value has arrived. An entry
+				// whose scalar value is zero while the document's value is not
+				// was made up (unlike a struct field, which is always there, or
+				// an open container, which may still be empty).
+				if scalarZero(it.Value()) && !scalarZero(bv) {
+					return c.fail(p, "map entry holds a zero value that is not the value in the document")
+				}
 				partialUsed = true
 				continue
 			}
@@ -412,6 +434,23 @@ func emptyish(v reflect.Value) bool {
 		return true
 	}
 	return (v.Kind() == reflect.Slice || v.Kind() == reflect.Map) && v.Len() == 0
+}
+
+// scalarZero: a zero value of a scalar kind (possibly behind an interface).
+func scalarZero(v reflect.Value) bool {
+	for v.IsValid() && v.Kind() == reflect.Interface && !v.IsNil() {
+		v = v.Elem()
+	}
+	if !v.IsValid() {
+		return false
+	}
+	switch v.Kind() {
+	case reflect.Bool, reflect.Int, reflect.Int8, reflect.Int16, reflect.Int32, reflect.Int64,
+		reflect.Uint, reflect.Uint8, reflect.Uint16, reflect.Uint32, reflect.Uint64,
+		reflect.Float32, reflect.Float64, reflect.String, reflect.Complex64, reflect.Complex128:
+		return v.IsZero()
+	}
+	return false
 }
 
 // Emptyish reports whether v holds nothing: nil, a zero value, an empty
